@@ -182,6 +182,9 @@ func runC20(r *rng) (string, string) {
 			before := sp.counter("downstream.rq_total")
 			sc.send(bulkArr([]byte("get"), []byte("nobody-waits-for-this")).bytes(), nil)
 			waitFor(2*time.Second, func() bool { return sp.counter("downstream.rq_total") > before }) // it has been read
+			if tc, ok := sc.c.(*net.TCPConn); ok {
+				tc.SetLinger(0) // a reset, so that the reply cannot even be handed to the kernel
+			}
 			sc.close()
 			events = append(events, "q:get:s", "x")
 			finished++
